@@ -28,7 +28,7 @@ func GenC14(t *rapid.T) *C14Case {
 	for i := range alphabet {
 		alphabet[i] = Kind(drawIdx(t, 7, "kind"))
 	}
-	c := &C14Case{Object: oneIn(t, 3, "obj"), Pred: drawInt(t, 0, 3, "pred"), Route: drawInt(t, 0, 7, "route")}
+	c := &C14Case{Object: oneIn(t, 3, "obj"), Pred: drawInt(t, 0, 3, "pred"), Route: drawInt(t, 0, numListRoutes-1, "route")}
 	for i := 0; i < n; i++ {
 		c.Kinds = append(c.Kinds, alphabet[drawIdx(t, nk, "k")])
 	}
@@ -182,8 +182,8 @@ func checkListViews(c *C14Case, st *Stats) error {
 			shape.L = append(shape.L, V{K: k})
 		}
 	}
-	l := listByRoute(shape, vals, c.Route%8, c.Pred)
-	st.Count(fmt.Sprintf("route.%d", c.Route%8))
+	l := listByRoute(shape, vals, c.Route%numListRoutes, c.Pred)
+	st.Count(fmt.Sprintf("route.%d", c.Route%numListRoutes))
 	before, _ := TakeIdentSnap(l)
 	// expected subsequences
 	sub := map[Kind][]any{}
